@@ -64,7 +64,7 @@ claimed = {
    design_ref="8.18",
    technique="contract-based deductive verification: exhaustive exact check of the initialiser-built table against an independent designation parser + SMT-discharged contracts and lemmas (mixed integer/real arithmetic with floor)"),
  "C20": dict(
-   text="Deductive proof that TriangleIByIndex.Less is the lexicographic order (hence a strict weak order, total on distinct triples, which sort.Sort and Equals need), that TriangleI.Canonical returns the rotation with the minimum first, and that rotations canonicalise identically; the global Bowyer-Watson correctness sentence is not claimed (not_decided).",
+   text="Deductive proof that TriangleIByIndex.Less is the lexicographic order (hence a strict weak order, total on distinct triples, which sort.Sort and Equals need), that TriangleI.Canonical returns the rotation with the minimum first, and that rotations canonicalise identically; the circumcircle predicate of the insertion: Triangle2.Circumcenter is equidistant from the three vertices (exactly, off the 1e-12 'nearly horizontal' branches), InCircumcircle's 'inside' is 'within the circumradius up to epsilon' and its 'done' early-out is sound (no point further along x can be inside); the global Bowyer-Watson correctness sentence is not claimed (not_decided).",
    design_ref="8.20",
    technique="contract-based deductive verification: VCs over symbolic slices (Ackermannised selects) and integers from go/ssa, discharged by SMT (LIA)"),
  "C15": dict(
